@@ -173,6 +173,24 @@ theorem C11_shrink_trigger_is_bucket_empty (hk : K → BitVec 8) (hne : ∀ k, h
   ⟨Proofs.WordsInv.meta_default_iff_empty hk hne b h hu, Proofs.WordsInv.upper_default,
    fun x i hi => Proofs.WordsInv.upper_setByte b.metaw x i hi hu⟩
 
+/-- **append, then load, on the printed texts**: run the printed `appendToBucketOf` for `(k, v)` on the chain of `k`'s root
+bucket (representative, keys distinct, `k` not yet there), then the printed `MapOf.Load` on the heap that call leaves behind:
+`Load k` returns `(v, true)`, and `Load x` for every other key of that root bucket returns what it held before - whether the
+entry went into a free slot of an existing bucket or into a fresh overflow bucket -/
+theorem C11_source_append_then_load (fuel : Nat) (hf : 8 ≤ fuel) (h : Deep.T.Heap K V) (k : K) (v : V)
+    (c : List (Model.Words.BucketOf K V)) (hc : h.chains[(Proofs.DeepLoad.bidxOf h k).toNat]? = some c) (hne : c ≠ [])
+    (hfuel : c.length + 1 ≤ fuel) (hrep : ∀ b ∈ c, Model.Words.RepB (Proofs.DeepLoad.hkOf h) b)
+    (hnd : (chainKeys (Model.Words.flat c)).Nodup) (habs : lookup k (Model.Words.flat c) = none) :
+    ∃ h', Deep.T.callW fuel h Gen.Deep.T_appendToBucketOf
+        [.w8 (Proofs.DeepLoad.hkOf h k), .entry k v, .bucketRef (Proofs.DeepLoad.bidxOf h k).toNat 0] = some (h', []) ∧
+      Deep.T.call fuel h' Gen.Deep.T_MapOf_Load [.key k] = some [.val v, .bool true] ∧
+      ∀ x, Proofs.DeepLoad.bidxOf h x = Proofs.DeepLoad.bidxOf h k → x ≠ k →
+        Deep.T.call fuel h' Gen.Deep.T_MapOf_Load [.key x] =
+          some (match lookup x (Model.Words.flat c) with
+            | some w => [.val w, .bool true]
+            | none => [.zeroV, .bool false]) :=
+  Proofs.CopyRep.append_then_load fuel hf h k v c hc hne hfuel hrep hnd habs
+
 /-! Non-vacuity: a free slot in the root bucket is filled; a full one-bucket chain gets a new bucket. -/
 def exFullB : Model.Words.BucketOf Nat Nat := ⟨0#64, [some (1, 1), some (2, 2), some (3, 3), some (4, 4), some (5, 5)]⟩
 def exAppHeap : Deep.T.Heap Nat Nat :=
